@@ -11,11 +11,18 @@ structure WF (m : PMol) : Prop where
   count : m.atoms.length ≤ 4095
   atomsOK : ∀ a ∈ m.atoms, AtomOK a
   graph : GraphOK m.atoms
-  nbrRange : ∀ a ∈ m.atoms, ∀ nb ∈ a.nbrs, nb.m < 4096
-  handshake : 2 * (firstSeen [] m.atoms).length = (m.atoms.map (·.nbrs.length)).sum
   ctLimit : ctCount m.atoms ≤ 4095
   terminals : ∀ p ∈ firstSeen [] m.atoms, p.2.stereo.isSome →
     ∃ tn tm, m.terminals.lookup p.1 = some (tn, tm) ∧ tn < 4096 ∧ tm < 4096
+
+theorem WF.nbrRange {m : PMol} (h : WF m) : ∀ a ∈ m.atoms, ∀ nb ∈ a.nbrs, nb.m < 4096 := by
+  intro a ha nb hnb
+  obtain ⟨b, hb, hbn, _⟩ := h.graph.sym a ha nb hnb
+  rw [← hbn]; exact (h.atomsOK b hb).num
+
+theorem WF.handshake {m : PMol} (h : WF m) :
+    2 * (firstSeen [] m.atoms).length = (m.atoms.map (·.nbrs.length)).sum :=
+  Proofs.C10.handshake h.graph
 
 theorem flatNbrs_eq (atoms : List PAtom) (h : ∀ a ∈ atoms, ∀ nb ∈ a.nbrs, nb.m < 4096) :
     flatNbrs atoms = flatM atoms := by
